@@ -41,12 +41,20 @@ inline bool rectilinear(const Paths64& ps) { for (auto& p : ps) for (size_t i = 
 
 // ---- generators (lattice level, small coordinates)
 inline Path64 rand_poly(Rng& r, int R, int nv) { Path64 p; for (int i = 0; i < nv; ++i) p.emplace_back(r.range(0, R), r.range(0, R)); return p; }
+inline int64_t gcd64(int64_t a, int64_t b) { a = std::llabs(a); b = std::llabs(b); while (b) { int64_t t = a % b; a = b; b = t; } return a; }
+// insert an exactly collinear lattice vertex on one edge (three consecutive collinear input vertices are in general position too)
+inline void subdivide(Rng& r, Path64& p) {
+  for (int tries = 0; tries < 8; ++tries) { size_t i = (size_t)r.range(0, (int64_t)p.size() - 1); const Point64 a = p[i], b = p[(i + 1) % p.size()];
+    int64_t g = gcd64(b.x - a.x, b.y - a.y); if (g < 2) continue; int64_t k = r.range(1, g - 1);
+    p.insert(p.begin() + i + 1, Point64(a.x + (b.x - a.x) / g * k, a.y + (b.y - a.y) / g * k)); return; }
+}
 inline bool gen_gps(Rng& r, int R, int maxpaths, int maxv, Paths64& S, Paths64& C) {
   for (int tries = 0; tries < 4000; ++tries) {
     S.clear(); C.clear();
     int ns = (int)r.range(1, maxpaths), nc = (int)r.range(1, maxpaths);
     for (int i = 0; i < ns; ++i) S.push_back(rand_poly(r, R, (int)r.range(3, maxv)));
     for (int i = 0; i < nc; ++i) C.push_back(rand_poly(r, R, (int)r.range(3, maxv)));
+    if (r.range(0, 2) == 0) for (auto* ps : {&S, &C}) for (auto& p : *ps) if (r.coin()) subdivide(r, p);
     Paths64 all = S; all.insert(all.end(), C.begin(), C.end());
     if (gp_native(all, 3)) return true;
   }
